@@ -177,9 +177,8 @@ pub fn gen_state_scenario(property: &str, seed: u64, thorough: bool) -> Scenario
   let fetch_path = !(config.index_sats || config.index_addresses);
   let every_height = property == "C02" && srng.chance(1, 2);
   let mut ops = schedule_ops(&mut srng, blocks, fetch_path, every_height, true);
-  if matches!(property, "C04" | "C05") {
-    crate::twin::compete(&mut ops, &mut srng, fetch_path);
-  }
+  // one more schedule choice, for every state property: a racing second updater
+  crate::twin::compete(&mut ops, &mut srng, fetch_path);
   Scenario {
     seed,
     profile: format!("{property}/state"),
